@@ -69,6 +69,25 @@ static Case cases[] = {
     {"json_partial_object_in_array", [] { return js_is("[{\"a\":1 x,2]", nullptr); }},
     {"json_partial_array_in_array", [] { return js_is("[[1 x,2]", nullptr); }},
     {"json_partial_array_in_object", [] { return js_is("{\"k\":[1 x,\"b\":2}", nullptr); }},
+    // ---- C01 template scanner / renderer
+    {"tmpl_operator_lookahead", [] {
+         char *p = exact("1|", 2);
+         auto  e = TemplateCore<char, Value<char>, StringStream<char>>::ParseExpressions(p, 2);
+         free(p);
+         return 0;
+     }},
+    {"tmpl_var_bracket_suffix", [] { return tp_is("{var:a]}", "{\"a]\":[7]}", nullptr); }},
+    {"tmpl_math_unterminated_nested", [] { return tp_is("{math:1+{math:2", "[1]", "{math:1+{math:2"); }},
+    {"tmpl_svar_phrase_open_brace", [] {
+         // phrase ends in '{': the tail flush must not emit the string's terminator
+         Value<char> v = JSON::Parse("{\"k\":\"ab{\",\"x\":1}");
+         const char *t = "{svar:k, {var:x}}";
+         StringStream<char> ss;
+         Template::Render(t, (SizeT)strlen(t), v, ss);
+         if (ss.Length() != 3 || memcmp(ss.First(), "ab{", 3) != 0)
+             return printf("expected [ab{] (3 units), got %u units\n", ss.Length()), 1;
+         return 0;
+     }},
 };
 
 int main(int argc, char **argv) {
